@@ -104,6 +104,8 @@ def _proj_c01(tree: dict) -> dict:
 def clauses_c01(ex, obs) -> list:
     """(a) re-open == live; (b) live == model ("nothing lost, duplicated or resurrected")."""
     out = []
+    if obs.get("reopen_error"):
+        return [("file-opens-again", obs["reopen_error"], {"results": ex.results[-6:]})]
     for tag, live, reo, rootname in (("", obs["live"], obs["reopen"], "root"), ("ws2:", obs["live2"], obs["reopen2"], "root2")):
         if live is None:
             continue
@@ -126,6 +128,10 @@ def clauses_c01(ex, obs) -> list:
         if listed != tree_uids:
             out.append(("reopen-listing-equals-tree", tag + "listing", {"listed": listed, "tree": tree_uids}))
     return out
+
+
+def ex_all_ops(ex):
+    return getattr(ex, "all_ops", [])
 
 
 def ex_ops(ex):
@@ -163,6 +169,14 @@ def fate(ex, wsn, uid_str) -> str:
                 return "removed-through-" + how.split(":")[-1]
             return "live-entity"
     return "untracked"
+
+
+def fate_any_removed_through_parent(ex, wsn, uid_str) -> bool:
+    for i, u in ex.uid.items():
+        if str(u) == uid_str and ex.model.ws_of.get(i) == wsn and i in ex.model.removed:
+            if ex.model.removed[i].split(":")[-1] == "parent":
+                return True
+    return False
 
 
 def clauses_c02(ex, obs) -> list:
@@ -266,6 +280,8 @@ def model_key(ex) -> str:
 def outcome(ex, obs) -> str:
     if obs.get("reopen") is not None:
         seen = sorted(obs["reopen"]["tree"])
+    elif obs.get("reopen_error"):
+        seen = obs["reopen_error"]
     else:
         seen = sorted(str(u) for i, u in ex.uid.items() if i in ex.model.nodes)
     return core.digest([ex.results, seen, len(obs["bytes"]) // 512])
@@ -309,6 +325,13 @@ class C05Protocol:
                 for nm in sorted(set(ws.list_entities_name.values())):
                     names[(wsn, nm)] = [None if g is None else str(g.uid) for g in ws.get_entity(nm)]
             obs["lookups"] = {"by_uid": look, "by_name": names}
+            obs["pg_listing_error"] = None
+            for ws in (ex.ws, ex.ws2):
+                if ws is not None:
+                    try:
+                        _ = ws.property_groups
+                    except Exception as err:  # pylint: disable=broad-except
+                        obs["pg_listing_error"] = type(err).__name__
             obs["listed"] = {
                 1: sorted(str(e.uid) for e in ex.ws.groups + ex.ws.objects + ex.ws.data),
                 2: sorted(str(e.uid) for e in ex.ws2.groups + ex.ws2.objects + ex.ws2.data) if ex.ws2 is not None else [],
@@ -316,14 +339,11 @@ class C05Protocol:
         ex._close_all()  # pylint: disable=protected-access
         _, b1, b2 = ex.closed_bytes[-1]
         obs["bytes"], obs["bytes2"] = b1, b2
-        ro = ex.Workspace(io.BytesIO(b1), mode="r")
-        obs["reopen"] = observe.snapshot(ro)
-        ro.close()
+        obs["reopen"], obs["reopen_error"] = ex.reopen_snapshot(b1)
         obs["reopen2"] = None
         if b2 is not None:
-            ro2 = ex.Workspace(io.BytesIO(b2), mode="r")
-            obs["reopen2"] = observe.snapshot(ro2)
-            ro2.close()
+            obs["reopen2"], err2 = ex.reopen_snapshot(b2)
+            obs["reopen_error"] = obs["reopen_error"] or err2
         return obs
 
 
@@ -358,13 +378,15 @@ def clauses_c05(ex, obs) -> list:
     for ev in ex.events:
         if ev[0] == "removed":
             pass
-    if not removed_sets(ex) and ex.before is None and not ex.unexpected:
+    if not removed_sets(ex) and ex.before is None and not ex.unexpected and not any(o[0] in ("pg_rm", "pg_del") for o in ex_all_ops(ex)):
         return []
     trees = {1: rawh5.tree(obs["image"], light=True), 2: rawh5.tree(obs["image2"], light=True) if obs["image2"] is not None else None}
     closed = {1: rawh5.tree(obs["bytes"], light=True), 2: rawh5.tree(obs["bytes2"], light=True) if obs["bytes2"] is not None else None}
     removed_uids = {wsn: {str(ex.uid[i]) for _, idxs in removed_sets(ex) for i in idxs if m.ws_of[i] == wsn} for wsn in (1, 2)}
     live = {1: obs["live"], 2: obs["live2"]}
     reo = {1: obs["reopen"], 2: obs["reopen2"]}
+    if obs.get("reopen_error"):
+        out.append(("file-opens-again", obs["reopen_error"], {"results": ex.results[-6:]}))
     for how, idxs in removed_sets(ex):
         for pos, i in enumerate(idxs):
             wsn = m.ws_of[i]
@@ -412,6 +434,8 @@ def clauses_c05(ex, obs) -> list:
     for pos, op, msg in ex.unexpected:
         if first_removal is not None and pos > first_removal:
             out.append(("survivor-operations-succeed", f"{op[0]}:{msg}", {"op": op, "error": msg, "results": ex.results}))
+    if obs.get("pg_listing_error"):
+        out.append(("survivor-operations-succeed", f"workspace.property_groups:{obs['pg_listing_error']}", {"results": ex.results[-5:]}))
     # (5) refusal when delete permission is off: refused, and nothing changes
     for ev in ex.events:
         if ev[0] == "deleted-despite-allow_delete-off":
@@ -434,6 +458,287 @@ def clauses_c05(ex, obs) -> list:
         if d and removed_sets(ex):
             out.append(("survivors-intact", _witness(ex, d, exp, got), {"diff": d[:10], "results": ex.results[-5:]}))
     # de-duplicate identical (clause, witness)
+    seen, res = set(), []
+    for c, w, dt in out:
+        if (c, w) not in seen:
+            seen.add((c, w))
+            res.append((c, w, dt))
+    return res
+
+
+# ---------------------------------------------------------------------------
+# C06 - identifiers
+class C06Protocol:
+    @staticmethod
+    def before_last(ex, history):
+        op = history["ops"][-1]
+        if isinstance(op[-1], dict) and "uid_of" in op[-1]:
+            return {"digests": rawh5.digests(ex.image(1)), "live": observe.snapshot(ex.ws, listings=False)}
+        return None
+
+    @staticmethod
+    def observe(ex, history):
+        obs = {"results": list(ex.results)}
+        obs["image"] = ex.image(1)
+        obs["live"] = observe.snapshot(ex.ws, listings=False)
+        obs["live2"] = observe.snapshot(ex.ws2, listings=False) if ex.ws2 is not None else None
+        look = {}
+        for i, nd in ex.model.nodes.items():
+            ws = ex.ws if nd.ws == 1 else ex.ws2
+            got = ws.get_entity(ex.uid[i])
+            look[i] = [None if g is None else [str(g.uid), type(g).__name__, getattr(g, "name", None)] for g in got]
+        obs["lookups"] = look
+        obs["listed"] = {}
+        obs["types"] = {}
+        for wsn, ws in ((1, ex.ws), (2, ex.ws2)):
+            if ws is None:
+                continue
+            obs["listed"][wsn] = {
+                "groups": [str(e.uid) for e in ws.groups],
+                "objects": [str(e.uid) for e in ws.objects],
+                "data": [str(e.uid) for e in ws.data],
+                "pgs": _pg_uids(ws),
+            }
+            obs["types"][wsn] = [[str(t.uid), type(t).__name__] for t in ws.types]
+        ex._close_all()  # pylint: disable=protected-access
+        _, b1, b2 = ex.closed_bytes[-1]
+        obs["bytes"], obs["bytes2"] = b1, b2
+        obs["reopen2"] = None
+        obs["reopen"], obs["reopen_error"] = ex.reopen_snapshot(b1)
+        return obs
+
+
+def _pg_uids(ws):
+    try:
+        return [str(e.uid) for e in ws.property_groups]
+    except Exception:  # pylint: disable=broad-except
+        return sorted({str(p.uid) for o in ws.objects for p in (o.property_groups or [])})
+
+
+def clauses_c06(ex, obs) -> list:
+    out = []
+    m = ex.model
+    # (a) no identifier twice among live entities / among types
+    for wsn, listed in obs["listed"].items():
+        allu = listed["groups"] + listed["objects"] + listed["data"] + listed["pgs"]
+        dup = sorted({u for u in allu if allu.count(u) > 1})
+        if dup:
+            kinds = sorted(k for k in ("groups", "objects", "data", "pgs") if any(u in listed[k] for u in dup))
+            out.append(("unique-live-identifiers", "shared-by:" + "+".join(kinds), {"ws": wsn, "dup": dup, "results": ex.results[-4:]}))
+        tu = [t[0] for t in obs["types"][wsn]]
+        if len(tu) != len(set(tu)):
+            out.append(("unique-type-identifiers", "type-uid-twice", {"ws": wsn}))
+    for tag, b in (("", obs["bytes"]), ("ws2:", obs["bytes2"])):
+        if b is None:
+            continue
+        for clause, wit, detail in rawh5.validate(b):
+            if clause == "unique-id":
+                wsn = 1 if tag == "" else 2
+                if isinstance(detail, dict) and fate_any_removed_through_parent(ex, wsn, detail.get("uid")):
+                    continue  # a node left behind by parent.remove_children is not a live entity (C02 / C05 finding)
+                out.append(("unique-live-identifiers", f"file:{wit}", detail))
+    for snap in (obs["live"], obs["live2"], obs["reopen"]):
+        if snap is not None and snap["dup"]:
+            out.append(("unique-live-identifiers", "uid-twice-in-tree", {"dup": snap["dup"]}))
+    # (b) explicit reuse of an identifier in use: refused, without side effects
+    for ev in ex.events:
+        if ev[0] == "reuse-accepted":
+            _, new_kind, other_kind = ev[1]
+            out.append(("reuse-refused", f"new-{new_kind}-with-uid-of-live-{other_kind}", {"at": ev[2], "results": ex.results[-4:]}))
+    if ex.before is not None and ex.results and ex.results[-1].startswith("refused:expected:uid-"):
+        kind = [ev for ev in ex.events if ev[0] == "uid-request-refused"][-1][1]
+        d = rawh5.diff_digests(ex.before["digests"], rawh5.digests(obs["image"]))
+        if d:
+            comps = sorted({k[0] + ":" + "+".join(sorted(v)) for k, v in d.items()})
+            out.append(("refusal-without-side-effects", f"file:{kind[0]}:new-{kind[1]}:" + ",".join(comps[:3]), {"diff": {str(k): sorted(v) for k, v in d.items()}}))
+        dl = observe.diff(ex.before["live"]["tree"], obs["live"]["tree"])
+        if dl:
+            out.append(("refusal-without-side-effects", f"live:{kind[0]}:new-{kind[1]}:" + _witness(ex, dl, ex.before["live"]["tree"], obs["live"]["tree"]), {"diff": dl[:8]}))
+    # (c) looking an identifier up returns the one entity that owns it
+    if not any(ev[0] == "reuse-accepted" for ev in ex.events):
+        for i, got in obs["lookups"].items():
+            nd = m.nodes[i]
+            if len(got) != 1 or got[0] is None or got[0][0] != str(ex.uid[i]) or got[0][2] != nd.name:
+                out.append(("lookup-returns-owner", f"{nd.kind}", {"idx": i, "got": got, "want": [str(ex.uid[i]), nd.name]}))
+    # (d) identifiers of copies
+    for ev in ex.events:
+        if ev[0] != "copy-uids":
+            continue
+        same_ws, pairs = ev[1], ev[2]
+        for kind, a, b, was_taken in pairs:
+            if same_ws:
+                if a == b:
+                    out.append(("same-workspace-copy-fresh-ids", f"{kind}-kept-uid", {"uid": a}))
+            else:
+                if was_taken and a == b:
+                    out.append(("cross-workspace-copy-ids", f"{kind}-reused-taken-uid", {"uid": a}))
+                if not was_taken and a != b:
+                    out.append(("cross-workspace-copy-ids", f"{kind}-dropped-free-uid", {"src": a, "new": b}))
+    # (e) one type per object / group class
+    for snap in (obs["live"], obs["live2"], obs["reopen"]):
+        if snap is None:
+            continue
+        by_cls = {}
+        for rec in snap["tree"].values():
+            if "association" in rec or rec.get("type") is None or rec["parent"] is None:
+                continue
+            by_cls.setdefault(rec["cls"], set()).add(rec["type"]["uid"])
+        for cls, tset in by_cls.items():
+            if len(tset) > 1:
+                out.append(("one-type-per-class", cls, {"types": sorted(tset)}))
+    seen, res = set(), []
+    for c, w, dt in out:
+        if (c, w) not in seen:
+            seen.add((c, w))
+            res.append((c, w, dt))
+    return res
+
+
+# ---------------------------------------------------------------------------
+# C09 - footprint of one mutation in the file
+class C09Protocol:
+    @staticmethod
+    def before_last(ex, history):
+        return {
+            "d": {1: rawh5.digests(ex.image(1)), 2: rawh5.digests(ex.image(2)) if ex.ws2 is not None else {}},
+            "model": ex.model.clone(),
+            "uid": dict(ex.uid),
+        }
+
+    @staticmethod
+    def observe(ex, history):
+        obs = {"results": list(ex.results), "live": None, "live2": None, "reopen": None, "reopen2": None}
+        obs["d"] = {1: rawh5.digests(ex.image(1)), 2: rawh5.digests(ex.image(2)) if ex.ws2 is not None else {}}
+        ex._close_all()  # pylint: disable=protected-access
+        _, b1, b2 = ex.closed_bytes[-1]
+        obs["bytes"], obs["bytes2"] = b1, b2
+        # opening and closing without any mutation changes nothing
+        obs["noop"] = {}
+        for wsn, b in ((1, b1), (2, b2)):
+            if b is None:
+                continue
+            before = rawh5.digests(b)
+            try:
+                w = ex.Workspace(io.BytesIO(b))
+                w.close()
+                after = rawh5.digests(w.h5file.getvalue())
+                obs["noop"][wsn] = rawh5.diff_digests(before, after)
+            except Exception as err:  # pylint: disable=broad-except
+                obs["noop"][wsn] = {("open-close-raised", type(err).__name__): {"error"}}
+        return obs
+
+
+def _footprint(ex, op, pre, pre_uid):
+    """Allowed changes for one operation: {uid: set(components)} per workspace, plus flags."""
+    m = ex.model
+    allow = {1: {}, 2: {}}
+
+    def add(wsn, idx_or_uid, comps):
+        u = str(pre_uid.get(idx_or_uid, ex.uid.get(idx_or_uid))) if isinstance(idx_or_uid, int) else idx_or_uid
+        allow[wsn].setdefault(u, set()).update(comps)
+
+    ALL = {"attrs", "dsets", "links", "type", "pgs"}
+    name = op[0]
+    root_uid = {1: str(ex.ws.root.uid) if ex.ws.root is not None else None, 2: str(ex.ws2.root.uid) if ex.ws2 is not None and ex.ws2.root is not None else None}
+
+    def parent_uid(model, idx):
+        par = model.nodes[idx].parent
+        wsn = model.ws_of[idx]
+        return (wsn, root_uid[wsn]) if par in ("root", "root2") else (wsn, str(pre_uid.get(par, ex.uid.get(par))))
+
+    def handle_uid(h, wsn=None):
+        if h == "root":
+            return 1, root_uid[1]
+        if h == "root2":
+            return 2, root_uid[2]
+        return m.ws_of[h], str(ex.uid[h])
+
+    if name in ("rename", "flag", "values", "vertices", "meta"):
+        add(pre.ws_of[op[1]], op[1], ALL)
+    elif name in ("mk_group", "mk_obj"):
+        wsn, pu = handle_uid(op[1] if name == "mk_group" else op[2])
+        add(wsn, pu, {"links"})
+    elif name == "add_data":
+        wsn, pu = handle_uid(op[1])
+        add(wsn, pu, {"links"})
+    elif name in ("pg_add", "pg_rm", "pg_del"):
+        add(pre.ws_of[op[1]], op[1], {"pgs"})
+    elif name == "move":
+        e = op[1]
+        wsn = pre.ws_of[e]
+        add(wsn, e, ALL)
+        w0, old = parent_uid(pre, e)
+        add(w0, old, {"links", "pgs"} if pre.nodes[e].kind == "data" else {"links"})
+        w1, new = handle_uid(op[2])
+        add(w1, new, {"links"})
+    elif name == "copy":
+        e = op[1]
+        tgt = pre.nodes[e].parent if op[2] == "same" else op[2]
+        wsn, pu = handle_uid(tgt)
+        add(wsn, pu, {"links"})
+    elif name in ("rm_ws", "rm_par"):
+        e = op[1]
+        wsn = pre.ws_of[e]
+        w0, old = parent_uid(pre, e)
+        add(w0, old, {"links", "pgs"} if pre.nodes[e].kind == "data" else {"links"})
+    return allow
+
+
+def clauses_c09(ex, obs) -> list:
+    out = []
+    ops = ex_all_ops(ex)
+    if ex.before is not None and ops:
+        op = ops[-1]
+        pre, pre_uid = ex.before["model"], ex.before["uid"]
+        refused = ex.results[-1].startswith("refused")
+        allow = _footprint(ex, op, pre, pre_uid) if not refused else {1: {}, 2: {}}
+        removed_now = set()
+        if op[0] in ("rm_ws", "rm_par") and not refused:
+            removed_now = {str(pre_uid[i]) for i in [op[1]] + pre.descendants(op[1])}
+        for wsn in (1, 2):
+            if not ex.before["d"][wsn]:
+                continue  # the second workspace did not exist before this operation
+            d = rawh5.diff_digests(ex.before["d"][wsn], obs["d"][wsn])
+            for key, comps in sorted(d.items(), key=str):
+                what = None
+                if key[0] == "project":
+                    what = "project-header"
+                elif key[0] == "type":
+                    if comps <= {"created", "deleted"}:
+                        continue  # types it introduces or stops using
+                    what = f"type:{key[1]}:" + "+".join(sorted(comps))
+                elif key[0] == "node":
+                    uid = key[2]
+                    if comps == {"created"}:
+                        if refused:
+                            what = f"refused-op-created:{key[1]}"
+                        elif op[0] in ("mk_group", "mk_obj", "add_data", "copy") or (op[0] == "reopen"):
+                            continue
+                        else:
+                            what = f"created:{key[1]}"
+                    elif comps == {"deleted"}:
+                        if uid in removed_now:
+                            continue
+                        if fate_any_removed_through_parent(ex, wsn, uid):
+                            continue  # late clean-up of a node that should be gone already
+                        what = f"deleted:{key[1]}"
+                    else:
+                        extra = comps - allow[wsn].get(uid, set())
+                        if not extra:
+                            continue
+                        if fate_any_removed_through_parent(ex, wsn, uid):
+                            continue
+                        role = "target" if (len(op) > 1 and isinstance(op[1], int) and str(pre_uid.get(op[1])) == uid) else "other"
+                        what = f"{role}-{key[1]}:" + "+".join(sorted(extra))
+                else:
+                    what = f"{key[0]}:" + "+".join(sorted(comps))
+                if what is not None:
+                    out.append(("only-the-footprint-changes", f"{op[0]}:{what}", {"op": op, "ws": wsn, "key": [str(k) for k in key], "components": sorted(comps), "results": ex.results[-4:]}))
+    for wsn, d in obs["noop"].items():
+        for key, comps in sorted(d.items(), key=str):
+            if key[0] == "node" and comps == {"deleted"} and fate_any_removed_through_parent(ex, wsn, key[2]):
+                continue
+            out.append(("open-close-changes-nothing", f"{key[0]}:{key[1] if len(key) > 1 else ''}:" + "+".join(sorted(comps)), {"ws": wsn, "key": [str(k) for k in key], "results": ex.results[-4:]}))
     seen, res = set(), []
     for c, w, dt in out:
         if (c, w) not in seen:
